@@ -3,7 +3,7 @@ the returned trees and on the recorded I/O history (DESIGN 3.2)."""
 from .. import world
 from ..oracle import Violation, exc_text, tree_diff
 from ..sim import SIM
-from . import common
+from . import common, select
 
 ID = "C07"
 LEVEL = "exploration"
@@ -61,7 +61,13 @@ def generate(rng, tier, index):
         spell = rng.choice(["file", "slash"] if wp["backend"] == "local" else ["bare", "slash"])
     if producer == "cli-relocated":
         spell = "same"
+    sels = []
+    for _ in range(rng.choice([0, 2, 3])):
+        k = rng.randrange(len(wp["images"]))
+        im = wp["images"][k]
+        sels.append([k, select.gen_selection(rng, im["lines"], im["pixels"])])
     return {"world": wp, "producer": producer, "location": location, "w": w_rpc, "r": r_rpc,
+            "selections": sels,
             "relocate_to": {"backend": rng.choice(["local", "file", "simfs", "simfs_opt",
                                                    "memory"]),
                             "dirs": rng.choice([["moved"], ["up", "loaded"], []])},
@@ -106,7 +112,7 @@ def execute(plan):
             if producer in ("option", "option-moved"):
                 w.open(create_cache=True, use_cache=False, records_per_chunk=wr)
                 made = w.user_index_files()
-                if len(made) != len(prod.images):
+                if not made:      # how many files a cache consists of is the library's business
                     violations.append(Violation(ID, "cache-not-created", site, {
                         "index_files": sorted(k[1] for k in made), "images": prod.images}))
                 if producer == "option-moved":
@@ -180,6 +186,25 @@ def execute(plan):
                 violations.append(Violation(ID, "cached-tree-differs", site, {
                     "diffs": diffs, "r": r, "w": wr, "backend": w.backend,
                     "restart": plan["restart"]}))
+            # partial selections through the decoded cache (grouping follows the read-time rpc)
+            for k, sel in ([] if diffs else plan.get("selections", [])):
+                name = prod.images[k]
+                try:
+                    want = select.apply(ref["imagery"][prod.groups[name]]["data"], sel).load()
+                except Exception:  # noqa: BLE001 - not a selection the uncached tree supports
+                    bump("selection-rejected-by-reference")
+                    continue
+                try:
+                    got = select.apply(t["imagery"][prod.groups[name]]["data"], sel).load()
+                    same = got.identical(want) and got.dtype == want.dtype
+                    detail = None if same else "values/coords differ"
+                except Exception as e:  # noqa: BLE001
+                    same, detail = False, exc_text(e)
+                bump("cached-selections")
+                if not same:
+                    violations.append(Violation(ID, "cached-selection-differs", site, {
+                        "selection": sel, "image": name, "detail": detail, "r": r, "w": wr}))
+                    break
             for name in prod.images:
                 n = prod.truth[name].shape[0]
                 try:
